@@ -93,6 +93,22 @@ def check_pair(mod, label, tabs, N, rng):
                 bad.append(("%s.ft2:parseval" % label, dict(N=N, delta=delta)))
         if bad:
             break
+    # the spacing may be handed over as a numpy scalar / 0-d / 1-element array: same numbers, argument untouched, no drift
+    if N >= 2:
+        for mk in (np.float64, np.array, lambda v: np.array([v])):
+            d_arr, df_arr = mk(0.5), mk(1.0 / (N * 0.5))
+            x = rng.standard_normal((N, N)) + 1j * rng.standard_normal((N, N))
+            for rep in range(3):
+                back = np.asarray(mod.ift2(np.asarray(mod.ft2(x.copy(), d_arr)), df_arr))
+                b1 = np.asarray(mod.ift(np.asarray(mod.ft(x.copy(), d_arr)), df_arr))
+                if float(np.ravel(d_arr)[0]) != 0.5 or abs(float(np.ravel(df_arr)[0]) - 1.0 / (N * 0.5)) > 0:
+                    bad.append(("%s:spacing-argument-modified" % label, dict(N=N, repetition=rep, delta=np.ravel(d_arr).tolist(), delta_f=np.ravel(df_arr).tolist())))
+                    break
+                if not np.allclose(back, x, rtol=0, atol=1e-10 * N) or not np.allclose(b1, x, rtol=0, atol=1e-10 * N):
+                    bad.append(("%s:inverse-pair:array-valued-spacing" % label, dict(N=N, repetition=rep)))
+                    break
+            if bad:
+                break
     # impulses: every basis vector (centring and shift theorem, literally)
     for i in range(N):
         e = np.zeros(N, complex)
